@@ -133,7 +133,7 @@ def gen(stratum, rng, tier):
         n = rng.randint(1, 12)
         # prefix() accumulates in float: keep values exactly representable.  "tiny": integer multiples of 2**-45 ..
         # 2**-60 (sums stay exact) - an array holding small units is an array like any other
-        mode = rng.choice(["int", "dyadic", "dyadic", "tiny"])
+        mode = rng.choice(["int", "dyadic", "dyadic", "tiny", "huge"])
         unit = 2.0 ** rng.choice([-45, -52, -60])
 
         def num():
@@ -141,6 +141,9 @@ def gen(stratum, rng, tier):
                 return rng.randint(-9, 9)
             if mode == "tiny":
                 return rng.randint(-64, 64) * unit
+            if mode == "huge":
+                # integers beyond 2**53: a plain array of ints adds them exactly, whatever their size
+                return rng.choice([-1, 1]) * (2 ** rng.choice([53, 54, 60, 62]) + rng.randint(0, 9))
             return rng.randint(-64, 64) / 8.0
 
         init = n if stratum == "ft-size-ctor" else [num() for _ in range(n)]
